@@ -6,7 +6,8 @@
    call, any number of Client incarnations on one session. *)
 From Coq Require Import List NArith.
 From GM Require Import Base.Lts Codec.Packet Session.Store Client.Future Client.Client Client.ClientSpec
-  Client.ClientWitness Client.ClientInvSbs Client.ClientInvRx Client.ClientKept Client.ClientTruth Client.ClientTotal.
+  Client.ClientWitness Client.ClientInvSbs Client.ClientInvRx Client.ClientKept Client.ClientTruth Client.ClientTotal
+  Client.TraceScan Client.ClientScanProofs.
 Import ListNotations.
 Open Scope N_scope.
 
@@ -49,6 +50,18 @@ Print Assumptions C09_future_total.
 Theorem C09_accessors_total : C09_accessors_total_statement.
 Proof. exact accessors_total. Qed.
 Print Assumptions C09_accessors_total.
+
+(* the clause scanners that bin/check runs over every OBSERVED event sequence (also over sequences the
+   monitor rejects) accept every trace the model accepts: a scanner failing on an observed trace is a
+   concrete input on which the implementation leaves the model AND breaks the clause *)
+Theorem C09_scan_store_before_send_sound : forall es s, run step init es = Some s -> scan_sbs [] es = true.
+Proof. exact scan_sbs_accepted. Qed.
+Print Assumptions C09_scan_store_before_send_sound.
+
+Theorem C09_scan_pubrec_sound : forall es s, run step init es = Some s ->
+  scan_pubrec XInit es = Some (pexp_of (k_ppc (k s))).
+Proof. exact scan_pubrec_accepted. Qed.
+Print Assumptions C09_scan_pubrec_sound.
 
 (* non-vacuity: Connect, CONNACK, Publish(QoS 1), PUBACK, future completed, Disconnect — accepted, all
    boolean checkers true, quiescent *)
